@@ -1606,6 +1606,9 @@ class SQLModel:
             temp_id_source = [0]
         if using is None:
             using = OrderedSet(join_node.column_names)
+        if len(using) < 1:
+            # the consumer reads none of the join's columns (it only counts rows): carry one column
+            using = OrderedSet([join_node.column_names[0]])
         view_name = f"natural_join_{temp_id_source[0]}"
         left_q = f"join_source_left_{temp_id_source[0]}"
         right_q = f"join_source_right_{temp_id_source[0]}"
